@@ -79,7 +79,7 @@ func cmdCheck(args []string) {
 	}
 	broken := func(f string, a ...interface{}) {
 		fmt.Printf("BROKEN-MACHINERY property=%s: %s\n", *prop, fmt.Sprintf(f, a...))
-		os.Exit(2)
+		exitClean(2)
 	}
 	p, err := loadProg(*repo, *verif)
 	if err != nil {
@@ -87,6 +87,7 @@ func cmdCheck(args []string) {
 	}
 	sd := scratchDir(*verif)
 	if !*keep {
+		scratchToRemove = sd // removed on every way out, os.Exit included (deferred calls do not run then)
 		defer os.RemoveAll(sd)
 	}
 	sv := &Solver{scratch: sd, timeout: tmo}
@@ -135,10 +136,46 @@ func cmdCheck(args []string) {
 			os.WriteFile(file, b, 0644)
 			fmt.Printf("note: contracts not checkable on this tree: %s\n", reason)
 			fmt.Printf("VIOLATION property=%s replay=%s obligation=corpus:%s\n", *prop, file, ad)
-			os.Exit(1)
+			exitClean(1)
 		}
 		broken("%s", reason)
 	}
+
+	// audit of the assumed library laws (lemma lines of lib/*.contracts) against the real library, run alongside the
+	// proof: a refuted law makes every proof that may have used it worthless, so it fails the run as broken machinery
+	type auditOut struct {
+		Audited []struct {
+			Label    string `json:"label"`
+			Tried    int    `json:"tuples_tried"`
+			HypHolds int    `json:"hypothesis_held"`
+			Refuted  bool   `json:"refuted"`
+			Witness  string `json:"witness"`
+		} `json:"audited"`
+		NotAudited []struct {
+			Label  string `json:"label"`
+			Reason string `json:"reason"`
+		} `json:"not_audited"`
+	}
+	auditCh := make(chan string, 1)
+	auditFile := filepath.Join(sd, "lemma_audit.json")
+	go func() {
+		n := "150000"
+		if *tier == "thorough" {
+			n = "3000000"
+		}
+		cmd := exec.Command("python3", filepath.Join(*verif, "tools", "audit_lemmas.py"), "--seed", strconv.Itoa(seed), "--samples", n, "--json", auditFile)
+		cmd.Env = append(os.Environ(), "VERIF_SCRATCH="+sd, "TMPDIR="+sd, "GOTMPDIR="+sd)
+		b, err := cmd.CombinedOutput()
+		if err != nil {
+			if ee, ok := err.(*exec.ExitError); ok && ee.ExitCode() == 1 {
+				auditCh <- "refuted"
+				return
+			}
+			auditCh <- "broken: " + truncate(string(b), 600)
+			return
+		}
+		auditCh <- "ok"
+	}()
 
 	// 1. generate
 	var obs []*Oblig
@@ -618,6 +655,23 @@ func cmdCheck(args []string) {
 	}
 	sort.Strings(as)
 	as = append(as, fixedAssumptions...)
+	auditSt := <-auditCh
+	var audit auditOut
+	readJSON(auditFile, &audit)
+	nAud, nRef := 0, 0
+	var notAud []string
+	for _, a := range audit.Audited {
+		nAud++
+		if a.Refuted {
+			nRef++
+		}
+	}
+	for _, a := range audit.NotAudited {
+		if !strings.HasPrefix(a.Label, "guide.") {
+			notAud = append(notAud, a.Label+" ("+a.Reason+")")
+		}
+	}
+	as = append(as, fmt.Sprintf("library laws (lemma lines of lib/*.contracts) are assumed; %d of them were tested against the real library in this run on adversarial path strings (%s), %d refuted; not testable and purely assumed: %s", nAud, auditSt, nRef, strings.Join(notAud, "; ")))
 	ev := map[string]interface{}{
 		"property_id": *prop,
 		"tier":        *tier,
@@ -643,6 +697,7 @@ func cmdCheck(args []string) {
 			"second_solver_undecided":  unconfirmed,
 			"bounded":                  boundedRecs,
 			"dependencies":             sortedKeys(depNames),
+			"lemma_audit":              audit,
 		},
 		"assumptions": as,
 		"wall_s":      wall,
@@ -663,6 +718,16 @@ func cmdCheck(args []string) {
 		fmt.Printf("not counted (not in baseline, undecided or unconfirmed): %v\n", undecidedNew)
 	}
 	violations = append(violations, boundedViolations...)
+	if len(violations) == 0 {
+		if strings.HasPrefix(auditSt, "broken") {
+			broken("lemma audit did not run: %s", auditSt)
+		}
+		for _, a := range audit.Audited {
+			if a.Refuted {
+				broken("assumed library law %s (lib/*.contracts) is refuted by the real library on %s: proofs that used it are void", a.Label, a.Witness)
+			}
+		}
+	}
 	if len(violations) > 0 {
 		for _, v := range violations {
 			fmt.Println(v)
@@ -670,7 +735,7 @@ func cmdCheck(args []string) {
 		for _, g := range guardFails {
 			fmt.Printf("note: vacuity guard also failed: %s\n", g)
 		}
-		os.Exit(1)
+		exitClean(1)
 	}
 	if len(guardFails) > 0 {
 		undecidable("vacuity guard: %s", strings.Join(guardFails, "; "))
@@ -697,7 +762,7 @@ func cmdCheck(args []string) {
 	if nOblig == 0 && len(knownLines) == 0 {
 		broken("no obligations generated")
 	}
-	os.Exit(0)
+	exitClean(0)
 }
 
 var trustedBase = []string{
@@ -907,7 +972,11 @@ func runReplay(p *Prog, verif, adapter string, model map[string]string, scratch 
 	goArgs = append(goArgs, "-run", "^TestVerifReplay$", "./"+dir)
 	cmd := exec.Command("go", goArgs...)
 	cmd.Dir = p.repo
-	cmd.Env = append(os.Environ(), "GOFLAGS=-mod=mod", "GOPROXY=off", "GOSUMDB=off", "GOTOOLCHAIN=local")
+	// the test's temporary directories live in this run's scratch directory, so they go away with it even when the
+	// test process is killed
+	td := filepath.Join(scratch, "tmp")
+	os.MkdirAll(td, 0755)
+	cmd.Env = append(os.Environ(), "GOFLAGS=-mod=mod", "GOPROXY=off", "GOSUMDB=off", "GOTOOLCHAIN=local", "TMPDIR="+td, "GOTMPDIR="+td)
 	b, _ := cmd.CombinedOutput()
 	out = string(b)
 	return src, out, strings.Contains(out, "PROPERTY-VIOLATED"), nil
@@ -1048,4 +1117,16 @@ func (p *Prog) adaptersFor(prop string) []string {
 		}
 	}
 	return sortedKeys(seen)
+}
+
+// scratchToRemove is the scratch directory of this run; exitClean removes it before leaving (a run that ends with
+// os.Exit skips deferred calls, and a check that reports violations ends that way: without this every failing run left
+// its queries behind, which once filled the disk).
+var scratchToRemove string
+
+func exitClean(code int) {
+	if scratchToRemove != "" {
+		os.RemoveAll(scratchToRemove)
+	}
+	os.Exit(code)
 }
